@@ -25,6 +25,7 @@ type Clause struct {
 
 type LoopContract struct {
 	Ordinal    int
+	Hints      []Clause
 	Invariants []Clause
 	Decreases  *Clause
 }
@@ -75,6 +76,7 @@ type SpecFunc struct {
 	Body   Expr
 	Text   string
 	Rec    bool
+	Opaque bool
 	Line   int
 	File   string
 }
@@ -104,7 +106,7 @@ func NewContracts() *Contracts {
 
 var (
 	reFuncHdr  = regexp.MustCompile(`^func\s+(?:\(\s*(\*?\w+)\s*\)\s*)?(\w+)(?:\s+results\s*\(([^)]*)\))?\s*$`)
-	reSpecHdr  = regexp.MustCompile(`^spec\s+(rec\s+)?func\s+(\w+)\s*\(([^)]*)\)\s*([\w\[\]\.]+)\s*=\s*(.*)$`)
+	reSpecHdr  = regexp.MustCompile(`^spec\s+(rec\s+|opaque\s+)?func\s+(\w+)\s*\(([^)]*)\)\s*([\w\[\]\.]+)\s*=\s*(.*)$`)
 	reLemmaHdr = regexp.MustCompile(`^lemma\s+(\w+)\s*\(([^)]*)\)\s*$`)
 	reLabel    = regexp.MustCompile(`^([a-zA-Z_][a-zA-Z0-9_]*):\s+(.*)$`)
 	reLoopHdr  = regexp.MustCompile(`^loop\s+(\d+)\s*:?\s*$`)
@@ -113,7 +115,7 @@ var (
 )
 
 var clauseKeywords = map[string]bool{"func": true, "spec": true, "lemma": true, "property": true, "ghost": true, "requires": true,
-	"ensures": true, "loop": true, "invariant": true, "decreases": true, "flags": true, "bind": true, "callsite": true, "let": true}
+	"ensures": true, "loop": true, "invariant": true, "decreases": true, "flags": true, "bind": true, "callsite": true, "let": true, "hint": true}
 
 func parseParams(s string) ([]Param, error) {
 	s = strings.TrimSpace(s)
@@ -244,7 +246,7 @@ func (cs *Contracts) ParseFile(path, pkgName string) error {
 			if err != nil {
 				return fail(l, "%v in spec %s", err, m[2])
 			}
-			sf := &SpecFunc{Pkg: pkgName, Name: m[2], Params: ps, Ret: m[4], Body: body, Text: m[5], Rec: m[1] != "", Line: l.line, File: path}
+			sf := &SpecFunc{Pkg: pkgName, Name: m[2], Params: ps, Ret: m[4], Body: body, Text: m[5], Rec: strings.TrimSpace(m[1]) == "rec", Opaque: strings.TrimSpace(m[1]) == "opaque", Line: l.line, File: path}
 			if _, dup := cs.Specs[sf.Name]; dup {
 				return fail(l, "duplicate spec func %s", sf.Name)
 			}
@@ -326,6 +328,15 @@ func (cs *Contracts) ParseFile(path, pkgName string) error {
 				return err
 			}
 			curLoop.Invariants = append(curLoop.Invariants, c)
+		case "hint":
+			if curLoop == nil {
+				return fail(l, "hint outside loop")
+			}
+			c, err := mkClause(l, rest)
+			if err != nil {
+				return err
+			}
+			curLoop.Hints = append(curLoop.Hints, c)
 		case "decreases":
 			if curLoop == nil {
 				return fail(l, "decreases outside loop")
